@@ -448,14 +448,18 @@ where
                 odd_length,
                 charset_override,
             } => {
-                let src = src.take().unwrap();
-
                 // look up transfer syntax
+                // (before taking the source,
+                // so that it is not lost if the transfer syntax is not recognized)
                 let ts = ts_index
                     .get(ts_uid)
                     .context(UnrecognizedTransferSyntaxSnafu {
                         ts_uid: ts_uid.to_string(),
                     })?;
+
+                // the source is no longer available
+                // if creating the parser has failed before
+                let src = src.take().context(IllegalStateMetaSnafu)?;
 
                 let mut options = LazyDataSetReaderOptions::default();
                 options.odd_length = *odd_length;
